@@ -42,12 +42,17 @@ ASSUMPTIONS = [
     "part in relationship operations; objects expunged by a rollback or as pending orphans are discarded; expire is preceded by a flush",
     "NOT NULL FK configs run with autoflush off and give every parentless child a parent (or discard it) before each flush; with autoflush "
     "off a collection is loaded before the owner's natural key is switched",
+    "UNIQUE columns (Tag/Node: code; composite (ga, gb)) and natural keys: a value is taken only if nobody else holds it in memory; a value a "
+    "row still holds in the database may be taken in the same flush only by a *pending* object of the same table from a persistent, "
+    "not-deleted row that gave it up (UPDATE-before-INSERT is what the unit of work does inside one mapper save batch; DELETEs come last, "
+    "self-referential mappers are flushed state by state: neither is asserted); out-of-session objects carry no UNIQUE values; with ON UPDATE "
+    "CASCADE only childless rows hand their key over",
     "known findings excluded by construction (pinned replays in findings/C30): pending child moved between parents under delete-orphan; "
     "delete cascade of an orphan lost when the former parent is deleted too; CircularDependencyError on adjacency-list re-arrangement",
 ]
 
 C30_CODES = [
-    "new", "add", "set", "set", "append", "append", "append", "remove", "remove", "replace", "replace", "clear",
+    "hand", "hand", "hand", "ucode", "ucode", "new", "add", "set", "set", "append", "append", "append", "remove", "remove", "replace", "replace", "clear",
     "setparent", "setparent", "setparent", "clearparent", "tagadd", "tagadd", "tagremove", "tagremove", "pk", "pk", "pk", "fav",
     "delete", "delete", "delete", "expunge", "merge", "merge", "flush", "flush", "flush", "flush", "commit", "commit", "rollback",
     "expire", "read",
